@@ -140,6 +140,30 @@ def run_longpiece(ctx, pt):
     ctx.eq('C14/%s/long-piece/close' % a, ctx.attempt(lambda: o.update(M[(nb + 1) * bl:], padding=True)), ('ok', HF.ref(a, M)))
 
 
+def pts_fork(tier):
+    return [(a, k) for a in ALGS for k in (1, 2)]
+
+
+def run_fork(ctx, pt):
+    """a stream forked with copy.deepcopy after k blocks: the original then absorbs more, the fork is closed first, then the
+    original - each digest is the one of the bytes that object was fed (a fork that cannot be made is not judged)"""
+    import copy
+    a, k = pt
+    bl = HF.blocklen(a)
+    A, B, C, D = expander(k * bl, 61), expander(2 * bl, 62), expander(bl // 2 + 3, 63), expander(5, 64)
+    o = HF.make(a)
+    o.initstate()
+    ctx.attempt(lambda: o.update(A, padding=False))
+    try:
+        f = copy.deepcopy(o)
+    except Exception:
+        return
+    ctx.attempt(lambda: o.update(B, padding=False))
+    ctx.eq('C14/%s/deep-copied-stream/fork' % a, ctx.attempt(lambda: f.update(C, padding=True)), ('ok', HF.ref(a, A + C)))
+    ctx.eq('C14/%s/deep-copied-stream/bit-counter' % a, o.padmethod.bitcnt, 8 * len(A + B))
+    ctx.eq('C14/%s/deep-copied-stream/original' % a, ctx.attempt(lambda: o.update(D, padding=True)), ('ok', HF.ref(a, A + B + D)))
+
+
 FAST = ('md4', 'md5', 'sha0', 'sha1', 'sha224', 'sha256', 'sha384', 'sha512', 'sha512_224', 'sha512_256', 'blake2b')
 
 
@@ -232,6 +256,8 @@ def selftest():
 
 def subchecks():
     return [
+        Sub('forked-streams', pts_fork, run_fork, engine='H',
+            bound='16 hashes: a stream deep-copied after 1 or 2 blocks, the original fed 2 more blocks, fork and original closed with different tails: each digest vs reference'),
         Sub('power-of-two-sizes', pts_pow2, run_pow2, engine='P', exhaustive=False, chunk=1,
             bound='16 hashes on messages of exactly 2^16 bytes (and 2^16-1, 2^16+1): one-shot vs two pieces vs hashlib; thorough: exactly 2^20 bytes for all and 2^21 bytes for the 11 faster ones'),
         hsub('pieces', systems, 20,
